@@ -81,26 +81,22 @@ theorem dep_error_kind_initiator (c : Cfg)
 
 example : (cAct .repaired true 3 3 (some 3) (some 5)).imiu + 3 + flag (some 3) 1 + flag (some 5) 1 ≤ 254 := by decide
 
-/-- The same for the Initiator against an ARBITRARY peer (any responder state machine
-`P` with an invariant `Qp`), provided the peer never sends a timeout extension
-without its data byte (such a frame makes `res.data[0]` raise IndexError - a
-malformed-input defect that belongs to property C07). -/
-theorem dep_error_kind_initiator_any_peer {σ : Type} (P : Peer σ) (c : Cfg) (Qp : σ → Prop)
-    (hrx : ∀ s rx, Qp s → Qp (P.rx s rx).1 ∧
-      ∀ p, (P.rx s rx).2 = some p → ∀ pni did nad, p ≠ .dep fTOX pni did nad [])
+/-- The same for the Initiator against an ARBITRARY peer: any responder state machine `P`, any state,
+any answers (RTOX with or without its data byte, NAK, foreign PDUs, silence), any fault script -
+the only exceptions leaving `Initiator.exchange` are `CommunicationError` classes.  No hypothesis on
+the peer (a timeout extension without RTOX value is a ProtocolError since /repo 8ba1bdd). -/
+theorem dep_error_kind_initiator_any_peer {σ : Type} (P : Peer σ) (c : Cfg)
     (hm : c.imiu + 3 + flag c.idid 1 + flag c.inad 1 ≤ 254)
-    (fuel : Nat) (script : List Fault) (s0 : σ) (hs : Qp s0) (pni : Nat) (p : Bytes) (hp : p ≠ []) :
+    (fuel : Nat) (script : List Fault) (s0 : σ) (pni : Nat) (p : Bytes) (hp : p ≠ []) :
     Safe (fun e => isComm e = true ∨ e = .outOfFuel)
       (exchange P c fuel { script := script, peer := s0, expired := false, wire := [] } pni p).2.2 := by
-  let S := mkSpec P c Qp (fun p => ∀ pni did nad, p ≠ .dep fTOX pni did nad []) 254 (by omega) (by omega) hm hrx
-    (fun pni did nad h => h pni did nad rfl)
-  exact (exchange_spec S fuel _ pni p ⟨hs, fun e h => by cases h⟩).2 hp
+  let S := mkSpec P c (fun _ => True) (fun _ => True) 254 (by omega) (by omega) hm
+    (fun _ _ _ => ⟨trivial, fun _ _ => trivial⟩)
+  exact (exchange_spec S fuel _ pni p ⟨trivial, fun e h => by cases h⟩).2 hp
 
-example : ∀ s rx, (fun _ : List (Option Pdu) => True) s →
-    (fun _ : List (Option Pdu) => True) ((⟨fun s _ => (s, none)⟩ : Peer (List (Option Pdu))).rx s rx).1 ∧
-    ∀ p, ((⟨fun s _ => (s, none)⟩ : Peer (List (Option Pdu))).rx s rx).2 = some p →
-      ∀ pni did nad, p ≠ .dep fTOX pni did nad [] := by
-  intro s rx _; exact ⟨trivial, fun p h => by cases h⟩
+/-- non-vacuity: a responder that answers the first request with an RTOX PDU without data byte -/
+example : (runScripted (cSmall .repaired none) 50 [] [some (.dep fTOX 0 none none [])] [1, 2]).2 = .error .protocol := by
+  decide +kernel
 
 /-- `Target.exchange` raises nothing but `ProtocolError` (it may also return None after
 DSL/RLS, or wait): for every run with non-empty Target payloads, with the first-exchange
